@@ -50,6 +50,9 @@ func c07Doc(name string, ti vocab.TypeInfo, known bool) map[string]interface{} {
 		d["oneOf"] = []interface{}{"https://example.com/opt/1", "https://example.com/opt/2"}
 	case "Collection", "CollectionPage", "OrderedCollection", "OrderedCollectionPage":
 		d["totalItems"] = 7
+		if ti.GoType == "OrderedCollectionPage" {
+			d["startIndex"] = 3
+		}
 	case "Link":
 		d["href"] = "https://example.com/href"
 		delete(d, "summary")
@@ -96,6 +99,9 @@ func c07Value(name string, ti vocab.TypeInfo) ap.Item {
 		setItem("OneOf", ap.ItemCollection{ap.IRI("https://example.com/opt/1"), ap.IRI("https://example.com/opt/2")})
 	case "Collection", "CollectionPage", "OrderedCollection", "OrderedCollectionPage":
 		v.FieldByName("TotalItems").SetUint(7)
+		if ti.GoType == "OrderedCollectionPage" {
+			v.FieldByName("StartIndex").SetUint(3)
+		}
 	case "Link":
 		v.FieldByName("Href").SetString("https://example.com/href")
 	case "Actor":
@@ -166,6 +172,8 @@ func c07CheckMarkers(it ap.Item, name string, ti vocab.TypeInfo) string {
 	case "Collection", "CollectionPage", "OrderedCollection", "OrderedCollectionPage":
 		if sv.FieldByName("TotalItems").Uint() != 7 {
 			bad = fmt.Sprintf("totalItems = %d", sv.FieldByName("TotalItems").Uint())
+		} else if ti.GoType == "OrderedCollectionPage" && sv.FieldByName("StartIndex").Uint() != 3 {
+			bad = fmt.Sprintf("startIndex = %d", sv.FieldByName("StartIndex").Uint())
 		}
 	case "Link":
 		if sv.FieldByName("Href").String() != "https://example.com/href" {
